@@ -50,6 +50,10 @@ def conc(t):
         return BNode(t["v"])
     if k == "num":
         return Literal(int(t["v"]))
+    if k == "dec":
+        # an exact decimal n / d, written with a fraction part ("1.0" for 1/1)
+        q_ = Decimal(t["n"]) / Decimal(t["d"])
+        return Literal(str(q_) if q_ != q_.to_integral_value() else "%d.0" % int(q_), datatype=XSD.decimal)
     if k == "str":
         return Literal(t["v"])
     if k == "bool":
